@@ -4,7 +4,11 @@
 compile_error!("the simulator must be built with --cfg resolved_verif");
 
 mod cache_engine;
+mod netactors;
+mod props_resolve;
+mod resolve_engine;
 mod runner;
+mod universe;
 mod util;
 
 use std::path::PathBuf;
@@ -13,9 +17,10 @@ use runner::{BatchConfig, Property, Tier};
 
 static C05: cache_engine::CacheProperty = cache_engine::CacheProperty { id: "C05" };
 static C15: cache_engine::CacheProperty = cache_engine::CacheProperty { id: "C15" };
+static C07: props_resolve::C07 = props_resolve::C07;
 
 fn properties() -> Vec<&'static dyn Property> {
-    vec![&C05, &C15]
+    vec![&C05, &C15, &C07]
 }
 
 fn find(id: &str) -> &'static dyn Property {
